@@ -33,6 +33,10 @@ CMP = {ast.Lt: ast.LtE, ast.LtE: ast.Lt, ast.Gt: ast.GtE, ast.GtE: ast.Gt, ast.E
        ast.In: ast.NotIn, ast.NotIn: ast.In, ast.Is: ast.IsNot, ast.IsNot: ast.Is}
 BIN = {ast.Add: ast.Sub, ast.Sub: ast.Add, ast.Mult: ast.FloorDiv, ast.FloorDiv: ast.Mult, ast.Mod: ast.FloorDiv}
 CALLS = {"any": "all", "all": "any", "min": "max", "max": "min"}
+# statements whose effect the property does not speak about (a contract clause there would be an over-demand)
+OUT_OF_SCOPE = {"Resources.combine_max": (("partition", "extra_args"),
+                                          "C20 constrains the quantities cpus, gpus, memory, time of combine_max; which "
+                                          "partition / extra_args win is not part of the statement")}
 
 
 def mutants(fn: ast.FunctionDef):
@@ -199,6 +203,10 @@ def work(job):
     else:
         out["verdict"] = "SURVIVED-DIFFERENT"
         out["witness"] = diff
+        words, why = OUT_OF_SCOPE.get(c.name, ((), ""))
+        if any(w in desc for w in words):
+            out["verdict"] = "survived-outside-the-property"
+            out["reason"] = why
     return out
 
 
